@@ -574,7 +574,7 @@ impl<'a> GeneratorState<'a> {
                                             }
                                             let signed = self.asm(
                                                 LDA,
-                                                &ExprType::Absolute(var, false, l * 256),
+                                                &ExprType::Absolute(var, false, l.wrapping_mul(256)),
                                                 pos,
                                                 true,
                                             )?;
@@ -1219,6 +1219,12 @@ impl<'a> GeneratorState<'a> {
     }
 
     fn generate_csleep_statement_ex(&mut self, cycles: i32, pos: usize) -> Result<(), Error> {
+        // 3, 5, 9 and 10 cycles are burnt on the DUMMY location the target defines
+        if matches!(cycles, 3 | 5 | 9 | 10) && !self.compiler_state.variables.contains_key("DUMMY") {
+            return Err(self
+                .compiler_state
+                .syntax_error("csleep needs a DUMMY variable for this number of cycles", pos));
+        }
         match cycles {
             2 => self.sasm_protected(NOP)?,
             3 => self.asm(
@@ -1350,7 +1356,12 @@ impl<'a> GeneratorState<'a> {
                 let mut lx = self.whitespaces_regex.replace_all(&l, " ");
                 if lx.len() > 256 {
                     let lxx = lx.to_mut();
-                    lxx.truncate(256);
+                    // Cut on a character boundary
+                    let mut cut = 256;
+                    while !lxx.is_char_boundary(cut) {
+                        cut -= 1;
+                    }
+                    lxx.truncate(cut);
                     lxx.push_str("...\n");
                     self.comment(&lxx)?; // Should include the '\n'
                 } else {
